@@ -8,7 +8,10 @@ SPEC = {
         Suite(name="bucket", harness="vh_bucket", runner="bucket", godev=True,
               model_deps=["theories/Model/Bucket.vo"],
               quick_n=600, thorough_n=12000,
-              rule="cases: 60% random sequences of 4..31 operations (50% write, 30% read, 20% list) on the REAL "
+              rule="cases: 60% random sequences of 4..35 operations (write, read, list, storage.Copy inside the bucket followed by a "
+                   "read of the destination and, 75%, by overwrites and reads of BOTH names; copies onto an existing object, onto "
+                   "itself, from absent or colliding names; bursts that put a sibling d-x / d.json / 'd x' next to a directory d and "
+                   "list the prefixes selecting only the sibling) on the REAL "
                    "storage.FSBucket in a fresh temporary directory: names of 1..4 ordinary components from a small pool "
                    "(shared prefixes, 'a/b' vs 'a-b' vs 'a.b', dots, spaces, backslash, non-UTF-8 bytes), 45% derived from an "
                    "earlier name (overwrite, child of an object, ancestor directory of an object, sibling, string-prefix only), "
@@ -30,6 +33,7 @@ SPEC = {
                   "other objects are unaffected, every absent object reports not-exist (also names that are ancestors or "
                   "descendants of stored names, fix 8c1d2a3), the listing is "
                   "the stored names with the STRING prefix in component-wise lexicographic (walk) order without duplicates, "
+                  "storage.Copy between different names is write(dst, read(src)) and leaves two independent objects, "
                   "names of ordinary components resolve to exactly their components below the bucket directory, and the "
                   "upload (Week/X.json), merge (date.json) and chart (date.json, start_end.json) names are such names for "
                   "every week accepted by the strict date parser and every %g rendering over [0-9eE+-.]. One deviation of "
